@@ -86,7 +86,7 @@ Proof. unfold finish_policy. rewrite get_str_pset. reflexivity. Qed.
 Definition int64_pos (z : Z) : Prop := (0 < z < 9223372036854775808)%Z.
 
 Lemma mint_reflects o secret now m :
-  mint o secret now = Ok m -> claim_safe o = true ->
+  mint o secret now = Ok m ->
   let pol := e_policy (m_entry m) in
   get_str pol A_Encryption = Some (yes_no (mo_enc o))
   /\ get_str pol A_Integrity = Some (yes_no (mo_integ o))
@@ -99,10 +99,10 @@ Lemma mint_reflects o secret now m :
   /\ ((mo_lifetime_ns o <= 0)%Z ->
       get_str pol A_SessionExpires = None /\ e_expiry (m_entry m) = ExpNone).
 Proof.
-  intros Hm Hsafe.
+  intros Hm.
   destruct (mint_inv _ _ _ _ Hm) as (info & e & cmds & He & Hr & -> & _). cbn [m_entry].
   destruct (register_inv _ _ _ _ _ _ _ _ _ _ _ Hr) as (q & Hi & _ & _ & -> & _).
-  destruct (policy_roundtrip _ _ He (wire_safe o now Hsafe)) as (q' & Hi' & Ri & Re & Rv & Rc & Rx & Rr).
+  destruct (policy_roundtrip _ _ He) as (q' & Hi' & Ri & Re & Rv & Rc & Rx & Rr).
   rewrite Hi in Hi'. inversion Hi'; subst q'. clear Hi'.
   destruct (wire_get o now) as (Ee & Ei & Ec & Ev & Evc & Eint & Estr).
   unfold registered. cbn [e_policy e_expiry].
@@ -198,4 +198,32 @@ Proof.
   assert (Hm : forallb cipher_char (mint_crypto o) = true).
   { unfold mint_crypto. destruct (is_nil (mo_crypto o)); [reflexivity|exact Hc]. }
   destruct (cipher_list_safe _ Hm) as [-> ->]. rewrite (short_version_sub _ _ Hv). reflexivity.
+Qed.
+
+(* what the refusal means at the mint level: unsafe cipher list / version => no claim is minted *)
+Lemma wire_safe_iff o now : policy_safe (mint_wire o now) = claim_safe o.
+Proof.
+  destruct (wire_get o now) as (Ee & Ei & Ec & Ev & Evc & _ & _).
+  unfold policy_safe, str_safe, claim_safe. rewrite Ee, Ei, Ec, Ev, Evc.
+  rewrite !ne_yes_no, !yes_no_safe, ne_wire_valid, ne_wire_version, ne_mint_crypto.
+  cbn [negb andb].
+  assert (match wire_valid o with Some v => negb (contains ch_semi v) | None => true end = true) as ->.
+  { unfold wire_valid. destruct (mo_valid o); [reflexivity|]. rewrite cmd_char_not by reflexivity. reflexivity. }
+  cbn [andb]. unfold wire_version. destruct (is_nil (mo_version o)) eqn:En.
+  - destruct (mo_version o); [|discriminate]. rewrite andb_true_r.
+    assert (contains ch_semi (short_version []) = false) as -> by reflexivity. rewrite andb_true_r. reflexivity.
+  - reflexivity.
+Qed.
+
+Lemma unsafe_options_refused o secret now : claim_safe o = false -> mint o secret now = Err.
+Proof.
+  intro H. unfold mint. destruct (is_nil (mo_sinful o)); [reflexivity|].
+  destruct (negb _); [reflexivity|].
+  rewrite (export_unsafe_refused (mint_wire o now)) by (rewrite wire_safe_iff; exact H). reflexivity.
+Qed.
+
+Lemma mint_ok_safe o secret now m : mint o secret now = Ok m -> claim_safe o = true.
+Proof.
+  intro H. destruct (claim_safe o) eqn:E; [reflexivity|].
+  rewrite (unsafe_options_refused o secret now E) in H. discriminate.
 Qed.
